@@ -18,6 +18,7 @@ func init() {
 const txtarFile = "golang.org/x/tools/txtar"
 
 func runC14(ctx *core.Ctx) {
+	c14Round6(ctx)
 	c14Round5(ctx)
 	ctx.Trusted = append(ctx.Trusted, "go/types, go/ssa", "library-fact table of the bounds engine", "bytes.Replace, bytes.TrimPrefix, utf8.Valid, append are total")
 	ctx.Rule("Q2", "Quote/Unquote refuse rather than guess: every nil-error return with non-nil data is dominated by the shape checks (Quote: last byte is newline, utf8.Valid; Unquote: first byte '>' and last byte newline)", 2)
